@@ -46,25 +46,28 @@ def plan(tier, seed):
     for name, specs in us:
         hist_depth = 0
         if name in ("K", "U1"):
-            hist_depth = 2
+            hist_depth = 2 if tier != "quick" else -2  # quick: 2 for small diagrams, 1 otherwise (resolved per network below)
         elif name == "U2":
             hist_depth = 1 if tier == "quick" else 2
         elif name in ("F3c", "I3") and tier != "quick":
             hist_depth = 1
-        size = 4 if hist_depth else 60
+        size = (1 if hist_depth == -2 else 4) if hist_depth else 60
         # quick tier: the partial-strategy x size-limit x completion grid runs on a complete seed-selected shard of
         # the two largest universes (complete strategies run on all of them)
-        part_mod = {"F3c": 4, "KxK": 2, "I3": 2}.get(name, 1) if tier == "quick" else 1
+        part_mod = {"F3c": 8, "KxK": 4, "I3": 4}.get(name, 1) if tier == "quick" else 1
         full = [s for j, s in enumerate(specs) if j % part_mod == seed % part_mod]
         rest = [s for j, s in enumerate(specs) if j % part_mod != seed % part_mod]
         for ch in U.chunks(full, size):
-            units.append((name, ch, hist_depth, True))
+            hd = hist_depth
+            if hd == -2:
+                hd = 2 if max(len(U.resolve(x).sd[0]) for x in ch) <= 4 else 1
+            units.append((name, ch, hd, True))
         for ch in U.chunks(rest, 120):
             units.append((name, ch, hist_depth, False))
     units.sort(key=lambda u: (not u[3], u[0] != "KxK"))
     return {
         "units": units, "universes": {n: len(s) for n, s in us},
-        "bounds": {"complete_strategies": len(COMPLETE), "partial": PARTIAL, "size_limits": "1..|full diagram|", "partial_grid_shard": "quick: F3c 1/4, KxK 1/2, I3 1/2 selected by VERIF_SEED; others all",
+        "bounds": {"complete_strategies": len(COMPLETE), "partial": PARTIAL, "size_limits": "1..|full diagram|", "partial_grid_shard": "quick: F3c 1/8, KxK 1/4, I3 1/4 selected by VERIF_SEED; others all",
                    "completions": ["skip_remaining", "skip_to_minimal on every stub until none left"],
                    "prefix_history_depth": {"K,U1": 2, "U2": 1 if tier == "quick" else 2, "F3c,I3": 0 if tier == "quick" else 1}},
         "rule": "network x (15 complete strategy/option variants | 7 partial strategies x every size limit x 2 skip "
